@@ -21,7 +21,6 @@ from crosshair.libimpl.builtinslib import SymbolicBool, SymbolicBytes, SymbolicI
 from crosshair.statespace import context_statespace
 from crosshair.tracers import NoTracing, ResumedTracing
 
-_orig_int = None
 
 
 def _z(x):
@@ -214,7 +213,7 @@ def _int(*a, **kw):
                         # rare region (whitespace / sign / underscore): use the real int() on concrete bytes
                         concrete = bytes(realize(e) for e in elems)
                         return int(concrete, 16)
-    return _orig_int(*a, **kw)
+    return int(*a, **kw)          # next patch layer: CrossHair's own int model
 
 
 # --------------------------------------------------------------------------- bitwise ops on bounded ints
@@ -394,9 +393,7 @@ def _struct_pack_method(self, *args):
 
 
 def install(INSTALLED, contracts=()):
-    global _orig_int
-    if _orig_int is None:
-        _orig_int = _PATCH_REGISTRATIONS[int]
+    from engine.chplugin import EXTRA_LAYER as _PATCH_REGISTRATIONS  # our own layer (see chplugin._install_layer)
     _PATCH_REGISTRATIONS[binascii.b2a_hex] = _b2a_hex
     _PATCH_REGISTRATIONS[binascii.hexlify] = _b2a_hex
     _PATCH_REGISTRATIONS[binascii.a2b_hex] = _a2b_hex
